@@ -64,6 +64,7 @@ ODD = [
     'misc-vs-data-dup', 'manifest-self-reference',
     'bz2-garbage', 'xz-truncated', 'entry-dotdot', 'top-symlink-loop',
     'two-timestamps', 'timestamp-in-sub-manifest', 'top-level-compressed',
+    'invalid-utf8-top', 'invalid-utf8-sub', 'invalid-utf8-unregistered',
 ]
 
 
@@ -205,6 +206,21 @@ def apply_odd(root, kind):
         hints['whole_tree_update'] = True
     elif kind == 'top-symlink-loop':
         os.symlink('.', os.path.join(root, 'other', 'self'))
+    elif kind in ('invalid-utf8-top', 'invalid-utf8-sub',
+                  'invalid-utf8-unregistered'):
+        # bytes that are not UTF-8 in a Manifest file
+        bad = b'DATA caf\xe9 0 MD5 ' + MD5E.encode() + b'\n'
+        if kind == 'invalid-utf8-top':
+            with open(os.path.join(root, 'Manifest'), 'ab') as f:
+                f.write(bad)
+        else:
+            import hashlib
+            with open(os.path.join(root, 'other', 'Manifest'), 'wb') as f:
+                f.write(bad)
+            if kind == 'invalid-utf8-sub':
+                append(root, 'Manifest',
+                       f'MANIFEST other/Manifest {len(bad)} MD5 '
+                       f'{hashlib.md5(bad).hexdigest()}\n')
     elif kind == 'top-level-compressed':
         # the tree's top-level Manifest is stored as Manifest.gz only
         top = os.path.join(root, 'Manifest')
